@@ -86,6 +86,15 @@ def run(ctx):
             cyc = globcommon.has_dir_cycle(T.root)
             pats = ['*', '**', '*/*', 'dang', 'sub/*', '{dang,f}', 'missing|dang|sub', './*', '../' + os.path.basename(T.root) + '/*', '*//*', 'real/', '**/', '!*a*', '.*',
                     ['real/*', 'sub/*'], [os.path.join(T.root, '*'), 'sub/*'], [os.path.join(T.root, 'real', '*.txt'), 'top.txt', '*'], os.path.join(T.root, '**')]
+            # patterns written from the tree: literal multi-segment paths (files and directories), a wildcard directory
+            # followed by a literal name, and `<link to a directory>/../*` (the parent of the link's target)
+            ents = T.entries()
+            deep = [e for e in ents if '/' in e and not any(sg.startswith('.') for sg in e.split('/'))][:6]
+            pats += deep + ['*/' + e.split('/')[-1] for e in deep[:3]] + ['./' + e for e in deep[:2]]
+            for e in ents:
+                fe = os.path.join(T.root, e)
+                if os.path.islink(fe) and os.path.isdir(fe) and not cyc:
+                    pats += [e + '/../*', e + '/..', e + '/./*']
             for pat in pats:
                 for fv in (Gm.GLOBSTAR, Gm.GLOBSTAR | Gm.MARK | Gm.BRACE | Gm.SPLIT, Gm.GLOBSTAR | Gm.NODIR | Gm.NEGATE | Gm.DOTGLOB, Gm.MATCHBASE | Gm.SCANDOTDIR):
                     n += 1
